@@ -260,7 +260,7 @@ fn replay_c15(check: &str, case: &Value, run: &mut Run) -> Option<()> {
 // ------------------------------------------------------------------------------------------------
 // C16
 
-fn face_area() -> f64 {
+pub fn face_area() -> f64 {
     poly_area2(&face_pentagon()).abs() / 2.0
 }
 pub fn k_const() -> f64 {
@@ -361,6 +361,14 @@ pub fn check_jacobian(run: &mut Run, q: P2, face: u8, class: &str) {
             if run.margin(key, rel, 1e-4, case) {
                 run.violation("C16.jacobian", case(), format!("local area scale {:.9} differs from 4 pi / (12 face areas) = {:.9} by {:.3e} (relative) at {:?} on face {face}", j, k_const(), rel, q));
             }
+            // anomaly -> zoom: far from the triangle corners the measurement is exact to ~1e-9 + (h / corner)^2; a value well above
+            // that (but still inside the 1e-4 tolerance) betrays a tiny discontinuity under the stencil - a region as small as
+            // a resolution-29 cell straddling it would have the wrong area. Locate it and measure at that scale.
+            let expected = 1e-9 + 2.0 * (h / corner).powi(2);
+            if rel > 30.0 * expected && rel <= 1e-4 && corner > 1e-3 && edge_dist > 1e-4 {
+                run.count("anomalies.zoomed");
+                zoom(run, q, face, h, class);
+            }
             run.count(if s0.1 { "stencils.beyond_edge" } else { "stencils.inside_face" });
             run.count(&format!("sector.{}", s0.0));
             run.nontrivial(mix(mix(q[0].to_bits(), q[1].to_bits()), face as u64));
@@ -369,6 +377,75 @@ pub fn check_jacobian(run: &mut Run, q: P2, face: u8, class: &str) {
             }
         }
         Err(e) => run.violation("C16.ok", case(), format!("inverse failed: {e}")),
+    }
+}
+
+fn jac_rel(q: P2, face: u8, w: f64) -> Option<f64> {
+    let pts = [[q[0] + w, q[1]], [q[0] - w, q[1]], [q[0], q[1] + w], [q[0], q[1] - w]];
+    let s: Vec<V3> = pts.iter().map(|p| inv(*p, face).ok()).collect::<Option<Vec<V3>>>()?;
+    let dx = scale(sub(s[0], s[1]), 1.0 / (2.0 * w));
+    let dy = scale(sub(s[2], s[3]), 1.0 / (2.0 * w));
+    Some((norm(cross(dx, dy)) / k_const() - 1.0).abs())
+}
+
+/// localise a discontinuity of the inverse projection inside the stencil [q - h, q + h] along either axis by repeatedly
+/// splitting the interval in 8 and following the sub-interval whose secant slope stands out (the smooth part of the slope
+/// differences shrinks with the width, a jump's contribution grows with 1 / width), then measure the Jacobian with a
+/// resolution-29-sized stencil (1e-9) straddling the located point, and at a control point six steps away
+fn zoom(run: &mut Run, q: P2, face: u8, h: f64, class: &str) {
+    for axis in 0..2 {
+        let at = |t: f64| -> P2 {
+            if axis == 0 {
+                [q[0] + t, q[1]]
+            } else {
+                [q[0], q[1] + t]
+            }
+        };
+        let (mut a, mut b) = (-h, h);
+        let mut localised = true;
+        while b - a > 4e-9 {
+            let n = 8;
+            let dt = (b - a) / n as f64;
+            let f: Option<Vec<V3>> = (0..=n).map(|i| inv(at(a + dt * i as f64), face).ok()).collect();
+            let Some(f) = f else {
+                localised = false;
+                break;
+            };
+            let slopes: Vec<V3> = (0..n).map(|i| scale(sub(f[i + 1], f[i]), 1.0 / dt)).collect();
+            let mean = scale(slopes.iter().fold([0.0; 3], |m, v| add(m, *v)), 1.0 / n as f64);
+            let dev: Vec<f64> = slopes.iter().map(|v| norm(sub(*v, mean))).collect();
+            let (imax, dmax) = dev.iter().enumerate().fold((0, 0.0), |m, (i, d)| if *d > m.1 { (i, *d) } else { m });
+            let mut others: Vec<f64> = dev.iter().enumerate().filter(|(i, _)| *i != imax).map(|(_, d)| *d).collect();
+            others.sort_by(|x, y| x.partial_cmp(y).unwrap());
+            let typical = others[others.len() / 2].max(1e-16 / dt);
+            if dmax < 4.0 * typical {
+                localised = false;
+                break;
+            }
+            a += dt * imax as f64;
+            b = a + dt;
+        }
+        if !localised {
+            continue;
+        }
+        run.count("anomalies.localised");
+        let w = 1e-9;
+        let c = at(0.5 * (a + b));
+        let ctrl = at(0.5 * (a + b) + 6.0 * w);
+        let (Some(fine), Some(control)) = (jac_rel(c, face, w), jac_rel(ctrl, face, w)) else { continue };
+        run.evaluations += 1;
+        let case = || json!({"q": [hx(c[0]), hx(c[1])], "q_dec": c, "face": face, "class": class, "stencil": w, "axis": axis});
+        run.margin("fine_scale_jacobian_relative_error_at_located_anomalies", fine, 1e-4, case);
+        if fine > 1e-4 && control < 2e-5 {
+            run.violation(
+                "C16.discontinuity",
+                case(),
+                format!(
+                    "the inverse projection jumps at {:?} on face {face}: a region of diameter 2e-9 (a resolution-29 cell) straddling it has its area off by {:.3e} (relative); six steps to the side the same measurement gives {:.3e}",
+                    c, fine, control
+                ),
+            );
+        }
     }
 }
 
@@ -502,6 +579,17 @@ fn replay_c16(check: &str, case: &Value, run: &mut Run) -> Option<()> {
     let face = case["face"].as_u64()? as u8;
     if let Some(size) = case.get("size").and_then(|s| s.as_f64()) {
         check_small_triangle(run, q, face, size, case["rot"].as_f64().unwrap_or(0.0));
+    } else if let Some(w) = case.get("stencil").and_then(|s| s.as_f64()) {
+        let axis = case["axis"].as_u64().unwrap_or(0);
+        let ctrl = if axis == 0 { [q[0] + 6.0 * w, q[1]] } else { [q[0], q[1] + 6.0 * w] };
+        let (fine, control) = (jac_rel(q, face, w), jac_rel(ctrl, face, w));
+        println!("replay: fine-scale (stencil {w:e}) Jacobian error at the recorded point {:?}, at the control point {:?}", fine, control);
+        run.evaluations += 1;
+        if let (Some(f), Some(c)) = (fine, control) {
+            if f > 1e-4 && c < 2e-5 {
+                run.violation("C16.discontinuity", case.clone(), format!("area of a 2e-9 region straddling the recorded point is off by {f:.3e}"));
+            }
+        }
     } else {
         check_jacobian(run, q, face, "replay");
     }
